@@ -380,6 +380,7 @@ fn status_case(t: &mut Tape, obs: &mut Obs) -> CaseResult {
     let (mut notready, mut ready, mut inring, mut foreign) = (0u64, 0u64, 0u64, 0u64);
     let mut stalled = 0u64;
     let mut restarts = 0u64;
+    let mut ring_changes = 0u64;
     for _ in 0..steps {
         w.wait_idle(40, &mut ());
         if w.holds_token() || w.state_name() == "CheckTokenPass" {
@@ -425,6 +426,29 @@ fn status_case(t: &mut Tape, obs: &mut Obs) -> CaseResult {
             let sent = w.frames_since(idx);
             ensure!(sent.is_empty(), "status-reply-late", "station answered a status request more than a slot time late, after another telegram had already followed it: {:?}", sent.iter().map(|x| x.1.clone()).collect::<Vec<_>>());
             stalled += 1;
+            continue;
+        }
+        if ring.len() >= 2 && pos % ring.len() == ring.len() - 1 && t.chance(1, 6) {
+            // the ring changes exactly at the wrap-around pass: the lowest station has left, the
+            // highest one passes the token to the new lowest.
+            // (a station whose list of active stations is already valid just updates it; the demand
+            // below concerns a station that is still listening its way in)
+            let was_ready = w.fdl.inspect_token_ring().ready_for_ring() || w.fdl.is_in_ring();
+            ring.remove(0);
+            let (sa, da) = (*ring.last().unwrap(), ring[0]);
+            w.inject_now(&token(sa, da), &mut ());
+            pos = 0;
+            if was_ready {
+                w.step(w.bit_us(5));
+                continue;
+            }
+            // weakest sound demand: every pass of the next rotation of the new ring was already seen in
+            // the rotation that ended with this pass, so one more complete rotation is needed (credit
+            // for one rotation of the new ring is given)
+            clean_passes = ring.len();
+            wraps = 1;
+            ring_changes += 1;
+            w.step(w.bit_us(5));
             continue;
         }
         if t.chance(6, 10) {
@@ -490,6 +514,9 @@ fn status_case(t: &mut Tape, obs: &mut Obs) -> CaseResult {
     obs.count("expired_requests_not_answered", stalled);
     if restarts > 0 {
         obs.label("left-the-bus-and-came-back");
+    }
+    if ring_changes > 0 {
+        obs.label("ring-changed-at-the-wrap-around-pass");
     }
     if notready + ready + inring > 0 {
         obs.nontrivial(fingerprint(&(ts, hsa, &ring, notready, ready, inring)));
@@ -576,9 +603,20 @@ pub fn property() -> Property {
                 let g = 1 + t.below(5) as u8;
                 let glen = gap_set(ts, ns, hsa).len();
                 let after = 1 + t.below((2 * (glen + g as usize + 3)) as u64) as usize;
-                obs.nontrivial(fingerprint(&(ts, ns, hsa, g, after)));
-                obs.sample(|| json!({"ts": ts, "ns": ns, "hsa": hsa, "gap_factor": g, "token_lost_after_visits": after}));
-                gap_case_ext(ts, ns, hsa, g, None, Some(after), obs)
+                // passive stations inside the GAP answer as slaves: the scan after the re-claim must not
+                // stop at them
+                let mut passive = vec![];
+                for a in gap_set(ts, ns, hsa) {
+                    if t.chance(1, 4) {
+                        passive.push(a);
+                    }
+                }
+                if !passive.is_empty() {
+                    obs.label("with-passive-stations");
+                }
+                obs.nontrivial(fingerprint(&(ts, ns, hsa, g, after, &passive)));
+                obs.sample(|| json!({"ts": ts, "ns": ns, "hsa": hsa, "gap_factor": g, "token_lost_after_visits": after, "passive_stations": passive}));
+                gap_case_full(ts, ns, hsa, g, None, Some(after), &passive, obs)
             }),
             SubCheck::tape("status_replies", "listening / in-ring histories with status requests", status_case),
         ],
@@ -588,7 +626,7 @@ pub fn property() -> Property {
                 Step::Pbt { kind: "gap_newcomer", cases: 3000, max_len: 16 },
                 Step::Pbt { kind: "gap_under_load", cases: 400, max_len: 120 },
                 Step::Pbt { kind: "gap_passive", cases: 3000, max_len: 48 },
-                Step::Pbt { kind: "gap_reclaim", cases: 3000, max_len: 16 },
+                Step::Pbt { kind: "gap_reclaim", cases: 3000, max_len: 48 },
                 Step::Pbt { kind: "status_replies", cases: 12_000, max_len: 260 },
             ],
             Tier::Thorough => vec![
@@ -596,7 +634,7 @@ pub fn property() -> Property {
                 Step::Pbt { kind: "gap_newcomer", cases: 20_000, max_len: 16 },
                 Step::Pbt { kind: "gap_under_load", cases: 4000, max_len: 120 },
                 Step::Pbt { kind: "gap_passive", cases: 20_000, max_len: 48 },
-                Step::Pbt { kind: "gap_reclaim", cases: 20_000, max_len: 16 },
+                Step::Pbt { kind: "gap_reclaim", cases: 20_000, max_len: 48 },
                 Step::Pbt { kind: "status_replies", cases: 100_000, max_len: 260 },
             ],
         },
